@@ -45,6 +45,9 @@ def as_iter(ex, st, v):
     from .maps import MapV, SetV
     if isinstance(v, SetV): return mk_list_iter([StrV(k, 'KString') for k in sorted(v.keys)])
     if isinstance(v, MapV): return mk_list_iter([Tup([StrV(k, 'KString'), x]) for k, x in zip(v.keys, v.items)])
+    if isinstance(v, Adt):
+        # a user type implementing Iterator (`impl<I: Iterator> IntoIterator for I` is the identity): drive its real `next`
+        return Py('iter', ('mir', st.ref(v, True), v.ty))
     raise Unsupported(f'into_iter on {v!r}')
 
 
@@ -191,6 +194,13 @@ def step(ex, st, d, depth):
             return
         for s2, item, inner2 in step(ex, st, inner, depth):
             yield s2, item, ('peekable', inner2, None)
+        return
+    if k == 'mir':
+        _, r, ty = d
+        for s2, kind, val in ex.call(f'<{ty} as Iterator>::next', [r], st, depth):
+            if kind != 'ret': yield s2, ('__panic__', val), d
+            elif val.variant == 'None': yield s2, None, d
+            else: yield s2, val.items[0], d
         return
     if k == 'pyiter':
         # ('pyiter', fn(ex, st, depth) -> generator of (st, item|None, desc'))
